@@ -83,10 +83,6 @@ fn check_c16(case: &Case) -> Verdict {
             }
         }
     }
-    if let Some(f) = super::config::value_fail(case, &r, &m) {
-        v.fail = Some(f);
-        return v;
-    }
     // ... "under the parameters in effect at that call": every run the terminal starts resolves them
     let (nt, cs) = case.final_params();
     for run in runs(&r.log).iter().filter(|x| x.begin >= r.term_start) {
